@@ -27,10 +27,11 @@ type StaticWarning struct {
 
 func NewStaticWarning(csvFile *csv.File, kind StaticWarningKind) StaticWarning {
 	return StaticWarning{
-		Kind:          kind,
-		File:          csvFile.Name(),
-		RowNumber:     csvFile.RowNumber(),
-		RowContent:    csvFile.RowContent(),
+		Kind:      kind,
+		File:      csvFile.Name(),
+		RowNumber: csvFile.RowNumber(),
+		// The csv reader reuses the row slice for later rows, so take a copy.
+		RowContent:    append([]string(nil), csvFile.RowContent()...),
 		HeaderContent: csvFile.HeaderContent(),
 	}
 }
